@@ -8,10 +8,10 @@ import coqlit as L
 ID = "C06"
 COQ_PROPERTY_FILE = "Properties/C06.v"
 COQ_DEPS = ["Common/ListX.v", "Common/ObsHash.v", "Common/CellState.v", "Generated/Tables.v", "Model/CellSpace.v", "Proofs/CellSpaceProofs.v",
-            "Proofs/CellSpaceRefine.v", "Proofs/CellSpaceBridge.v"]
-COQ_IMPORTS = "From Mesa Require Import Model.CellSpace."
-COQ_CASE_TYPE = "case"
-COQ_RUN = "run_case"
+            "Proofs/CellSpaceRefine.v", "Proofs/CellSpaceBridge.v", "Model/CellSpaceX.v", "Proofs/CellSpaceXProofs.v"]
+COQ_IMPORTS = "From Mesa Require Import Model.CellSpace Model.CellSpaceX."
+COQ_CASE_TYPE = "xcase"
+COQ_RUN = "xrun_case"
 TABLE_CONSTRUCTS = ["direction_map", "cell_agents_code", "cell_is_empty_code", "cell_is_full_code", "cell_add_agent_code",
                     "cell_remove_agent_code", "cell_getters", "cell_setter_code", "fixed_setter_code", "move_to_code",
                     "move_relative_code", "move2d_code", "cellagent_remove_code", "fixedagent_remove_code", "empties_code",
@@ -21,7 +21,7 @@ RULE = ("history = one cell space (OrthogonalMooreGrid / OrthogonalVonNeumannGri
         "VoronoiGrid; torus flag; capacity None / 1 / 2 / 3, per cell on Voronoi) + up to 8 agents (CellAgent, FixedAgent, "
         "Grid2DMovingAgent) + up to 30 operations: cell assignment (incl. None, the same cell, a full cell), move_to, "
         "move_relative (existing and missing directions), Grid2DMovingAgent.move(name, k) (k from -1 to beyond the border, "
-        "names in mixed case and invalid), remove (also repeated), model.remove_all_agents, select_random_empty_cell under both strategies and "
+        "names in mixed case and invalid), remove (also repeated), model.remove_all_agents, agents created mid-history, CellCollection views and random choices on all_cells / empties, direct cell.add_agent / remove_agent calls (model and correspondence only; the oracle stops judging after the first), capacity 0 and fractional capacities (rare), select_random_empty_cell under both strategies and "
         "placement into the cell it returned, and 'probe' points where the driver issues every kind of call that must be rejected in "
         "the state reached (C18 fault enumeration: full cells, FixedAgent second cell, missing directions, paths leaving the grid); the whole state view is observed after every operation. "
         "non-trivial = at least 3 operations of which one was rejected or one cell held >= 2 agents or a removal happened; "
@@ -91,6 +91,8 @@ def _n_cells(sp):
 def _rand_space(rng):
     t = rng.choice(["moore", "moore", "vonneumann", "vonneumann", "hex", "network", "network", "voronoi"])
     cap = rng.choice([None, 1, 1, 1, 2, 2, 3])
+    if rng.random() < 0.06:
+        cap = rng.choice([0, 0.5, 1.5, 2.5])      # documented boundary: capacity 0 and float capacities
     if t in ("moore", "vonneumann"):
         dims = list(rng.choice(GRID_DIMS))
         return {"type": t, "dims": dims, "torus": rng.random() < 0.5, "capacity": cap}
@@ -109,6 +111,8 @@ def _rand_space(rng):
         return {"type": t, "graph": {"nodes": nodes, "edges": edges}, "capacity": cap}
     pts = rng.choice(VORONOI_POINTS)
     caps = [rng.choice([None, 1, 1, 2, 3]) for _ in pts] if rng.random() < 0.7 else [cap]
+    if rng.random() < 0.1:
+        caps = [rng.choice([None, 1, 2, 0, 1.5, 2.5]) for _ in pts]
     return {"type": t, "points": pts, "capacity": cap, "caps": caps}
 
 
@@ -236,7 +240,21 @@ def _gen_ops(rng, sp, kinds, n_ops):
             removed.add(a)
             where.pop(a, None)
         elif r < 0.92:
-            if rng.random() < 0.5:
+            q = rng.random()
+            if q < 0.18 and len(kinds) < 10:
+                k = rng.choice(KINDS)
+                kinds.append(k)              # an agent created in the middle of the history
+                ids.append(len(kinds))
+                if k != "fixed":
+                    movers.append(len(kinds))
+                if k == "grid2d":
+                    g2.append(len(kinds))
+                ops.append(["new", k])
+                continue
+            if q < 0.40:
+                ops.append([rng.choice(["coll_rand_cell", "coll_rand_agent", "coll_view"]), rng.choice(["all", "empties"])])
+                continue
+            if q < 0.7:
                 ops.append(["probe"])
                 continue
             ops.append(["rand_empty", rng.random() < 0.5])
@@ -260,7 +278,15 @@ def _rand_case(rng, max_ops=30):
             kinds.append("grid2d")
         else:
             kinds.append("cell")
-    return {"space": sp, "agents": kinds, "seed": rng.randrange(1000), "ops": _gen_ops(rng, sp, kinds, rng.randint(3, max_ops))}
+    init_kinds = list(kinds)
+    ops = _gen_ops(rng, sp, kinds, rng.randint(3, max_ops))     # may append kinds of agents created mid-history
+    if rng.random() < 0.12:
+        # direct cell.add_agent / cell.remove_agent calls (outside the quantifier of C06: model + correspondence only),
+        # in the second half so that most of the history stays under the oracle
+        for _ in range(rng.randint(1, 3)):
+            pos = rng.randint(len(ops) // 2, len(ops))
+            ops.insert(pos, [rng.choice(["cell_add", "cell_add", "cell_remove"]), rng.randrange(ncells), rng.randint(1, len(init_kinds))])
+    return {"space": sp, "agents": init_kinds, "seed": rng.randrange(1000), "ops": ops}
 
 
 def _corner_cases():
@@ -296,6 +322,18 @@ def _corner_cases():
     # remove_all_agents with a never-placed FixedAgent in the middle, and with a re-placed removed agent
     out.append({"space": {"type": "hex", "dims": [2, 2], "torus": False, "capacity": 2}, "agents": ["cell", "fixed", "cell", "fixed", "grid2d"], "seed": 8,
                 "ops": [["set", 1, 0], ["set", 3, 0], ["set", 4, 1], ["set", 5, 2], ["remove", 3], ["set", 3, 3], ["remove_all"], ["rand_empty", False], ["remove_all"]]})
+    # round 3: agents created mid-history, collection views, capacity 0 / fractional, and (last) direct cell calls
+    out.append({"space": {"type": "moore", "dims": [2, 2], "torus": False, "capacity": 2.5}, "agents": ["cell", "fixed"], "seed": 9,
+                "ops": [["coll_view", "all"], ["coll_view", "empties"], ["coll_rand_agent", "all"], ["set", 1, 0], ["set", 2, 0], ["new", "grid2d"], ["set", 3, 0],
+                        ["new", "cell"], ["set", 4, 0], ["coll_view", "all"], ["coll_view", "empties"], ["coll_rand_agent", "all"], ["coll_rand_agent", "empties"],
+                        ["coll_rand_cell", "empties"], ["coll_rand_cell", "all"], ["move2d", 3, "east", 1], ["remove_all"], ["new", "fixed"], ["set", 5, 1], ["coll_view", "all"]]})
+    out.append({"space": {"type": "network", "graph": GRAPHS[2], "capacity": 0}, "agents": ["cell", "cell", "fixed"], "seed": 10,
+                "ops": [["set", 1, 0], ["set", 2, 0], ["set", 3, 0], ["coll_view", "empties"], ["rand_empty", False], ["move_rel", 1, [1]], ["remove", 2]]})
+    out.append({"space": {"type": "vonneumann", "dims": [3], "torus": True, "capacity": 0.5}, "agents": ["cell", "cell"], "seed": 11,
+                "ops": [["set", 1, 0], ["set", 2, 0], ["move_to", 2, 1], ["coll_rand_cell", "empties"], ["new", "cell"], ["place_rand", 3, True]]})
+    out.append({"space": {"type": "moore", "dims": [2, 2], "torus": False, "capacity": 1}, "agents": ["cell", "cell", "fixed"], "seed": 12,
+                "ops": [["set", 1, 0], ["set", 2, 1], ["cell_add", 1, 1], ["cell_add", 2, 1], ["cell_add", 2, 1], ["cell_remove", 0, 1], ["set", 1, 3], ["remove", 1],
+                        ["cell_remove", 3, 2], ["coll_view", "all"], ["rand_empty", False], ["set", 3, 2], ["remove_all"]]})
     # networks and Voronoi: capacity, un-placing, empties under the list strategy on a full space
     out.append({"space": {"type": "network", "graph": GRAPHS[1], "capacity": 1}, "agents": ["cell", "cell", "fixed"], "seed": 5,
                 "ops": [["set", 1, 0], ["set", 2, 1], ["rand_empty", False], ["set", 3, 0], ["move_rel", 1, [1]], ["set", 1, None], ["place_rand", 3, False],
@@ -404,6 +442,8 @@ def _dirs_used(case):
 
 
 def _static(case, space=None):
+    import math
+
     """what the model needs from the real space: capacities and the connection rows of the directions
     this history uses (cell.connections.get(key) for every cell)"""
     if space is None:
@@ -412,7 +452,9 @@ def _static(case, space=None):
         space = _build_space(case["space"], random.Random(0))
     cells = list(space._cells.values())
     index = {id(c): i for i, c in enumerate(cells)}
-    caps = [c.capacity for c in cells]
+    raw_caps = [c.capacity for c in cells]
+    caps = [None if q is None else int(math.ceil(q)) for q in raw_caps]      # admission test n >= q  <=>  n >= ceil(q)
+    frac = [bool(q is not None and q != int(q)) for q in raw_caps]            # len == q is never true then
     rows = []
     for k in _dirs_used(case):
         key = _key_of(case["space"], k)
@@ -421,7 +463,7 @@ def _static(case, space=None):
             t = c.connections.get(key)
             row.append(index[id(t)] if t is not None else -1)
         rows.append([k, row])
-    return {"ncells": len(cells), "caps": caps, "conn": rows, "grid": case["space"]["type"] in ("moore", "vonneumann", "hex")}
+    return {"ncells": len(cells), "caps": caps, "frac": frac, "conn": rows, "grid": case["space"]["type"] in ("moore", "vonneumann", "hex")}
 
 
 def _classify(e, kind="", fixed=False, bad_name=False):
@@ -461,6 +503,8 @@ SITE = {"set": "cell-setter", "move_to": "cell-setter", "move_rel": "move_relati
 
 
 def run_impl(case):
+    import math
+
     import mesa
     from mesa.discrete_space import CellAgent, FixedAgent, Grid2DMovingAgent
 
@@ -517,14 +561,14 @@ def run_impl(case):
         return v
 
     # ---- the oracle's shadow: where every agent is according to the history alone
-    loc = {a: None for a in range(1, n + 1)}
-    regd = {a: True for a in range(1, n + 1)}
+    loc = {a: None for a in range(1, len(agents) + 1)}
+    regd = {a: True for a in range(1, len(agents) + 1)}
     dangling = set()         # removed FixedAgents: their pointer is left on its value by design
     failures = []
     poisoned = [False]
 
     def occupants(c):
-        return [a for a in range(1, n + 1) if loc[a] == c]
+        return [a for a in range(1, len(agents) + 1) if loc[a] == c]
 
     def full(c, entering):
         cap = caps[c]
@@ -538,7 +582,7 @@ def run_impl(case):
     def check_state(site, i, op):
         """the statement of C06 over the implementation's own state; first failing clause only"""
         lists = [ids_of(c.agents) for c in cells]
-        for a in range(1, n + 1):
+        for a in range(1, len(agents) + 1):
             ag = agents[a - 1]
             if ag not in model.agents and kinds[a - 1] == "fixed":
                 continue            # a removed FixedAgent keeps its pointer by design
@@ -555,10 +599,10 @@ def run_impl(case):
                 return fail(f"C06/{site}/mirror-listed-elsewhere", i,
                             f"after {op}: agent {a} reports cell {ci} but is listed in cell(s) {others}")
         for j, l in enumerate(lists):
-            if caps[j] and len(l) > caps[j]:
+            if caps[j] and len(l) > math.ceil(caps[j]):
                 return fail(f"C06/{site}/capacity-exceeded", i, f"after {op}: cell {j} of capacity {caps[j]} holds {l}")
         # the history's truth
-        for a in range(1, n + 1):
+        for a in range(1, len(agents) + 1):
             ag = agents[a - 1]
             if (ag in model.agents) != regd[a]:
                 return fail(f"C06/{site}/registration", i, f"after {op}: agent {a} registered={ag in model.agents}, the history says {regd[a]}")
@@ -589,7 +633,7 @@ def run_impl(case):
         if emp != [j for j in range(ncells) if not occupants(j)]:
             return fail(f"C06/{site}/empties", i, f"after {op}: empties={emp}, the cells without agents are {[j for j in range(ncells) if not occupants(j)]}")
         sa = sorted(ids_of(space.agents))
-        exp = sorted(a for a in range(1, n + 1) if loc[a] is not None)
+        exp = sorted(a for a in range(1, len(agents) + 1) if loc[a] is not None)
         if sa != exp:
             return fail(f"C06/{site}/agents", i, f"after {op}: space.agents={sa}, the placed agents are {exp}")
         raw = sorted(ids_of(space.all_cells.agents))
@@ -610,7 +654,7 @@ def run_impl(case):
         (at most 12, spread over agents and cells), as explicit operations"""
         out = []
         fullc = [c for c in range(ncells) if full(c, 0)]
-        for a in range(1, n + 1):
+        for a in range(1, len(agents) + 1):
             k = kinds[a - 1]
             if k == "fixed":
                 if loc[a] is not None or a in dangling:
@@ -658,6 +702,114 @@ def run_impl(case):
             out = [out[int(j * step_)] for j in range(12)]
         return out
 
+    outside = [False]     # a direct cell.add_agent / remove_agent call has been made: outside the quantifier of C06
+
+    def extra_op(i, op):
+        """round 3: agents created mid-history, direct cell.add_agent / remove_agent, CellCollection views"""
+        nonlocal prev
+        kind = op[0]
+        if kind == "new":
+            if op[1] not in klass or len(agents) >= 12:
+                obs.append([-2] + prev)
+                ops_out.append(["noop"])
+                return
+            ag = klass[op[1]](model)
+            agents.append(ag)
+            kinds.append(op[1])
+            a = len(agents)
+            aid[id(ag)] = a
+            loc[a] = None
+            regd[a] = True
+            cur = view()
+            obs.append([0, a] + cur)
+            ops_out.append(["new", op[1]])
+            if not poisoned[0]:
+                check_state("new-agent", i, op)
+            prev = cur
+            return
+        if kind in ("cell_add", "cell_remove"):
+            c, a = op[1], op[2]
+            if not (isinstance(c, int) and 0 <= c < ncells and isinstance(a, int) and 1 <= a <= len(agents)):
+                obs.append([-2] + prev)
+                ops_out.append(["noop"])
+                return
+            raised = None
+            try:
+                if kind == "cell_add":
+                    cells[c].add_agent(agents[a - 1])
+                else:
+                    cells[c].remove_agent(agents[a - 1])
+            except Exception as e:  # noqa: BLE001
+                raised = e
+            cur = view()
+            if raised is not None:
+                code = E_FULL if type(raised) is Exception else E_NOTIN if isinstance(raised, ValueError) else 99
+                obs.append([-1, code] + cur)
+                if cur != prev and not poisoned[0]:
+                    fail(f"C18/cell-space/cell.{'add' if kind == 'cell_add' else 'remove'}_agent", i,
+                         f"{op} raised {type(raised).__name__}: {raised} but changed the observable state: before {prev} after {cur}")
+                if code == 99:
+                    fail("C06/cell-direct-call/unexpected-exception", i, f"{op} raised {type(raised).__name__}: {raised}")
+            else:
+                obs.append([0] + cur)
+            ops_out.append(list(op))
+            # the statement of C06 quantifies over placements through agent.cell / move_* / remove only: from here on the
+            # history is compared with the model but no longer judged by the oracle
+            outside[0] = True
+            poisoned[0] = True
+            prev = cur
+            return
+        w = op[1]
+        if w not in ("all", "empties"):
+            obs.append([-2] + prev)
+            ops_out.append(["noop"])
+            return
+        free = [j for j in range(ncells) if not occupants(j)]
+        placed = sorted(b for b in loc if loc[b] is not None)
+        rnd.draws = 0
+        raised, ret = None, None
+        try:
+            coll = space.all_cells if w == "all" else space.empties
+            if kind == "coll_rand_cell":
+                ret = coll.select_random_cell()
+            elif kind == "coll_rand_agent":
+                ret = coll.select_random_agent()
+            else:
+                ret = ([cidx.get(id(c), -9) for c in coll.cells], ids_of(coll.agents), len(coll))
+        except Exception as e:  # noqa: BLE001
+            raised = e
+        site = f"collection-{w}"
+        if raised is not None:
+            code = E_NOEMPTY if isinstance(raised, IndexError) else 99
+            obs.append([-1, code] + prev)
+            ops_out.append([kind, w, None])
+            expect_members = (list(range(ncells)) if w == "all" else free) if kind == "coll_rand_cell" else (placed if w == "all" else [])
+            if code == 99 or (expect_members and kind != "coll_view") or kind == "coll_view":
+                fail(f"C06/{site}/unexpected-exception", i, f"{op} raised {type(raised).__name__}: {raised}")
+            return
+        if kind == "coll_rand_cell":
+            rj = cidx.get(id(ret), -9)
+            obs.append([0, rj] + prev)
+            ops_out.append([kind, w, rj])
+            if rj < 0 or (w == "empties" and occupants(rj)):
+                fail(f"C06/{site}/random-cell-not-a-member", i, f"{op} returned cell {rj}; cells without agents are {free}")
+        elif kind == "coll_rand_agent":
+            ra = aid.get(id(ret), 0)
+            obs.append([0, ra] + prev)
+            ops_out.append([kind, w, ra])
+            if w == "empties" or ra not in placed:
+                fail(f"C06/{site}/random-agent-not-a-member", i, f"{op} returned agent {ra}; the placed agents are {placed}")
+        else:
+            cl, al, ln = ret
+            obs.append([0, ln] + cl + [-9] + al + prev)
+            ops_out.append([kind, w])
+            exp_c = list(range(ncells)) if w == "all" else free
+            exp_a = placed if w == "all" else []
+            if sorted(cl) != exp_c or len(set(cl)) != len(cl) or ln != len(exp_c):
+                fail(f"C06/{site}/cells", i, f"{op}: cells {cl} (len {ln}), expected {exp_c}")
+            elif sorted(al) != exp_a:
+                fail(f"C06/{site}/agents", i, f"{op}: agents {al}, expected {exp_a}")
+
     queue = [list(o) for o in case["ops"]]
     i = -1
     while queue:
@@ -669,10 +821,13 @@ def run_impl(case):
         i += 1
         kind = op[0]
         op_m = list(op)
+        if kind in ("new", "cell_add", "cell_remove", "coll_rand_cell", "coll_rand_agent", "coll_view"):
+            extra_op(i, op)
+            continue
         a = op[1] if kind not in ("rand_empty", "remove_all") else None
         # ---- applicability (total driver: the shrinker deletes arbitrary ops)
         na = False
-        if a is not None and not (isinstance(a, int) and 1 <= a <= n):
+        if a is not None and not (isinstance(a, int) and 1 <= a <= len(agents)):
             na = True
         elif kind in ("set", "move_to") and op[2] is not None and not (0 <= op[2] < ncells):
             na = True
@@ -738,7 +893,7 @@ def run_impl(case):
             must_succeed = True
         elif kind in ("rand_empty", "place_rand"):
             strat = bool(op[-1])
-            have_empty = any(not occupants(j) for j in range(ncells))
+            have_empty = any(not c._agents for c in cells) if outside[0] else any(not occupants(j) for j in range(ncells))
             if not have_empty and is_grid and strat:
                 # rejection sampling without an empty cell never returns: not run (known non-finding)
                 obs.append([-1, E_LOOP] + prev)
@@ -817,7 +972,7 @@ def run_impl(case):
             obs.append(([0, rj] if kind == "rand_empty" else [0]) + cur)
             # the history's truth moves on
             if kind == "remove_all":
-                for b in range(1, n + 1):
+                for b in range(1, len(agents) + 1):
                     if regd[b]:
                         regd[b] = False
                         if kinds[b - 1] == "fixed" and loc[b] is not None:
@@ -854,41 +1009,69 @@ def _opt(v):
     return "None" if v is None else f"(Some {L.z(v)})"
 
 
+def _api(op):
+    k = op[0]
+    if k == "set":
+        return f"SetCell {L.z(op[1])} {_opt(op[2])}"
+    if k == "move_to":
+        return f"MoveTo {L.z(op[1])} {L.z(op[2])}"
+    if k == "move_rel":
+        return f"MoveRel {L.z(op[1])} {L.zlist(op[2])}"
+    if k == "move2d":
+        return f"Move2D {L.z(op[1])} {_codes(op[2])} {L.z(op[3])}"
+    if k == "remove":
+        return f"Remove {L.z(op[1])}"
+    if k == "remove_all":
+        return "RemoveAll"
+    if k == "rand_empty":
+        return f"RandomEmpty {L.b(op[1])} {_opt(op[2] if len(op) > 2 else None)}"
+    if k == "place_rand":
+        return f"PlaceRandomEmpty {L.z(op[1])} {L.b(op[2])} {_opt(op[3] if len(op) > 3 else None)}"
+    if k == "noop":
+        return "Remove 0"         # an operation naming a missing agent: NotApplicable in the model too
+    raise ValueError(k)
+
+
 def coq_case(case):
     m = case.get("_ops_for_model")
     if m:
         ops_src, st = m["ops"], m["static"]
     else:
         ops_src, st = case["ops"], _static(case)
-    n = len(case["agents"])
     ops = []
+    all_kinds = list(case["agents"])
+    coll = {"all": "CAll", "empties": "CEmpties"}
     for op in ops_src:
         k = op[0]
-        if k == "set":
-            ops.append(f"SetCell {L.z(op[1])} {_opt(op[2])}")
-        elif k == "move_to":
-            ops.append(f"MoveTo {L.z(op[1])} {L.z(op[2])}")
-        elif k == "move_rel":
-            ops.append(f"MoveRel {L.z(op[1])} {L.zlist(op[2])}")
-        elif k == "move2d":
-            ops.append(f"Move2D {L.z(op[1])} {_codes(op[2])} {L.z(op[3])}")
-        elif k == "remove":
-            ops.append(f"Remove {L.z(op[1])}")
-        elif k == "remove_all":
-            ops.append("RemoveAll")
-        elif k == "probe":
+        if k == "probe":
             continue        # only present when the driver did not run (it expands probes into explicit operations)
-        elif k == "rand_empty":
-            ops.append(f"RandomEmpty {L.b(op[1])} {_opt(op[2] if len(op) > 2 else None)}")
-        elif k == "place_rand":
-            ops.append(f"PlaceRandomEmpty {L.z(op[1])} {L.b(op[2])} {_opt(op[3] if len(op) > 3 else None)}")
+        if k == "new":
+            if op[1] in ("cell", "fixed", "grid2d"):
+                all_kinds.append(op[1])
+                ops.append("NewAgent")
+            else:
+                ops.append("Api (Remove 0)")
+        elif k == "cell_add":
+            ops.append(f"CellAdd {L.z(op[1])} {L.z(op[2])}")
+        elif k == "cell_remove":
+            ops.append(f"CellRemove {L.z(op[1])} {L.z(op[2])}")
+        elif k == "coll_rand_cell" and op[1] in coll:
+            ops.append(f"CollRandomCell {coll[op[1]]} {_opt(op[2] if len(op) > 2 else None)}")
+        elif k == "coll_rand_agent" and op[1] in coll:
+            ops.append(f"CollRandomAgent {coll[op[1]]} {_opt(op[2] if len(op) > 2 else None)}")
+        elif k == "coll_view" and op[1] in coll:
+            ops.append(f"CollView {coll[op[1]]}")
+        elif k in ("coll_rand_cell", "coll_rand_agent", "coll_view"):
+            ops.append("Api (Remove 0)")
         else:
-            raise ValueError(k)
-    kinds = L.lst([{"cell": "KCell", "fixed": "KFixed", "grid2d": "KGrid2D"}[k] for k in case["agents"]])
+            ops.append(f"Api ({_api(op)})")
+    kinds = L.lst([{"cell": "KCell", "fixed": "KFixed", "grid2d": "KGrid2D"}[k] for k in all_kinds])
     caps = L.lst([_opt(c) for c in st["caps"]])
+    frac = L.lst([L.b(f) for f in st.get("frac", [False] * len(st["caps"]))])
     conn = L.lst([L.pair(L.zlist(k), L.zlist(row)) for k, row in st["conn"]])
-    return (f"{{| c_ncells := {st['ncells']}; c_caps := {caps}; c_conn := {conn}; c_grid := {L.b(st['grid'])}; "
-            f"c_kinds := {kinds}; c_ops := {L.lst(ops)} |}}")
+    base = (f"{{| c_ncells := {st['ncells']}; c_caps := {caps}; c_conn := {conn}; c_grid := {L.b(st['grid'])}; "
+            f"c_kinds := {kinds}; c_ops := [] |}}")
+    return f"{{| x_base := {base}; x_born0 := {len(case['agents'])}; x_frac := {frac}; x_ops := {L.lst(ops)} |}}"
 
 
 def op_kinds(case):
@@ -897,7 +1080,7 @@ def op_kinds(case):
         k = op[0]
         if k in ("set", "remove") and len(op) > 1 and isinstance(op[1], int) and 1 <= op[1] <= len(case["agents"]):
             k += "/" + case["agents"][op[1] - 1]
-        if op[0] == "set" and op[2] is None:
+        if op[0] == "set" and len(op) > 2 and op[2] is None:
             k += "/None"
         if op[0] in ("rand_empty", "place_rand"):
             k += "/try_random" if op[-1] else "/empties"
